@@ -53,4 +53,16 @@ theorem mergeSort_meets_spec (le : Nat → Nat → Bool)
     (htotal : ∀ a b, (le a b || le b a) = true) : QsortSpec le (fun xs => xs.mergeSort le) :=
   fun xs => ⟨List.mergeSort_perm xs le, List.pairwise_mergeSort htrans htotal xs⟩
 
+/-! Non-vacuity: an array with ties and a dead slot, sorted by a (kernel-reducible, stable) insertion
+sort for the preorder "compare modulo 10"; below, `List.mergeSort` meets `QsortSpec` for that preorder -/
+example :
+    let a : Arr := Arr.mk 4 5 [21, 3, 11, 2, 99] (fun c => 2 * c) .conf
+    let ins : List Nat → List Nat := fun xs => xs.foldr (fun x acc =>
+      acc.takeWhile (fun y => y % 10 < x % 10) ++ x :: acc.dropWhile (fun y => y % 10 < x % 10)) []
+    a.Inv ∧ (a.sort ins {}).1.abs = [21, 11, 2, 3] ∧ (a.sort ins {}).1.buf = [21, 11, 2, 3, 99] ∧
+    (a.sort ins {}).1.Inv ∧ (a.sort ins {}).2.fault = false := by decide
+
+example : QsortSpec (fun x y => decide (x % 10 ≤ y % 10)) (fun xs => xs.mergeSort (fun x y => decide (x % 10 ≤ y % 10))) :=
+  mergeSort_meets_spec _ (fun a b c h1 h2 => by simp at *; omega) (fun a b => by simp; omega)
+
 end CC.Properties.C18Array
